@@ -11911,30 +11911,33 @@ CK_RV SoftHSM::deriveSymmetric
 					}
 				}
 
-				// Get the KCV
-				SymmetricKey* secret = new SymmetricKey();
-				secret->setKeyBits(secretValue);
+				// Get the KCV (of the key type that is being created: the check
+				// value of a DES or AES key is not the one of a generic secret)
+				SymmetricKey* secret = NULL;
 				switch (keyType)
 				{
 					case CKK_GENERIC_SECRET:
-						secret->setBitLen(byteLen * 8);
-						plainKCV = secret->getKeyCheckValue();
+						secret = new SymmetricKey();
 						break;
 					case CKK_DES:
 					case CKK_DES2:
 					case CKK_DES3:
-						secret->setBitLen(byteLen * 7);
-						plainKCV = ((DESKey*)secret)->getKeyCheckValue();
+						secret = new DESKey();
 						break;
 					case CKK_AES:
-						secret->setBitLen(byteLen * 8);
-						plainKCV = ((AESKey*)secret)->getKeyCheckValue();
+						secret = new AESKey();
 						break;
 					default:
 						bOK = false;
 						break;
 				}
-				delete secret;
+				if (secret != NULL)
+				{
+					secret->setKeyBits(secretValue);
+					secret->setBitLen(byteLen * ((keyType == CKK_GENERIC_SECRET || keyType == CKK_AES) ? 8 : 7));
+					plainKCV = secret->getKeyCheckValue();
+					delete secret;
+				}
 
 				if (isPrivate)
 				{
